@@ -245,6 +245,39 @@ def drive(a, b, c, d):
     return f(a, pick(c, 3))
 ''', vars=["r", "s"], forms=["except without a name", "bare except"], ctx=["r", "x"])
 
+T("try_return_fallthrough", '''
+def f(x, sel):
+    try:
+        if sel == 1:
+            raise Boom(x)
+        if sel == 2:
+            return eff("ret", x)
+        raise KeyError(x)
+    except Boom:
+        eff("caught", x)
+    except KeyError as ke:
+        y = x + 1
+
+def drive(a, b, c, d):
+    return f(a, pick(c, 3))
+''', vars=["y", "x"], forms=["function ending with try/return whose handlers fall off the end"], ctx=["x"])
+
+T("callpath", '''
+def inner(v):
+    x = v + 1
+    return x * 2
+
+def f(a, n):
+    tot = 0
+    for i in range(n):
+        tot = tot + inner(a + i)
+    return tot
+
+def drive(a, b, c, d):
+    bound(c, 0, 2)
+    return (f(a, c), inner(b))
+''', vars=["tot", "i"], funcs=("f",), twin_funcs=["f", "inner"], forms=["call path f > inner"], ctx=["a"])
+
 T("try_finally_return", '''
 def f(x, sel):
     for i in range(2):
